@@ -230,6 +230,9 @@ var specs = map[string]*propSpec{
 			// flight while another connection holds the database's write lock (no Go-level race involved)
 			{engine: "range", parallel: 4, qBatches: 2, qCases: 16, tBatches: 8, tCases: 16},
 			wireRun(0, 8),
+			// the receive path under oversubscription: 4 x NumCPU listeners, each fed by its own goroutine as fast
+			// as it goes, GOMAXPROCS 4 x NumCPU; every reply must echo the datagram that goroutine just sent
+			{engine: "poolstress", qBatches: 2, qCases: 2, tBatches: 4, tCases: 5, stall: 6 * time.Minute},
 			// the environment variants of the real binary: among them a backlog of requests from two links
 			// queued while the process is stopped (what the read loop does with several datagrams at once)
 			wireVarRun(),
